@@ -114,7 +114,7 @@ pub fn run(id: &str, rest: &str) -> String {
                     samples[p] = v;
                 }
             }
-            let src = VarSource { samples, ch, bps, rate, pos: 0, bytes_mode: false, hint: true, fail_at: None, reads: 0 };
+            let src = VarSource { samples, ch, bps, rate, pos: 0, bytes_mode: false, hint: true, fail_at: None, reads: 0, hint_extra: 0 };
             let (tx, rx) = std::sync::mpsc::channel();
             std::thread::spawn(move || {
                 let r = std::panic::catch_unwind(std::panic::AssertUnwindSafe(|| flacenc::encode_with_fixed_block_size(&cfg, src, bs)));
